@@ -6,7 +6,7 @@ Import ListNotations.
 Open Scope N_scope.
 
 Inductive l4 :=
-| L4TCP (sp dp flags : N) | L4UDP (sp dp : N) | L4ICMP (ty code : N) | L4ICMP6 (ty code : N)
+| L4TCP (sp dp flags ow : N) (* ow: number of 32-bit option words, 0..10 *) | L4UDP (sp dp : N) | L4ICMP (ty code : N) | L4ICMP6 (ty code : N)
 | L4Other (proto : N) (payload : bytes).
 
 Record ip4 := { i4Tos : N; i4Ttl : N; i4Id : N; i4Off : N; i4Flags : N; i4Src : bytes; i4Dst : bytes }.
@@ -21,17 +21,20 @@ Record frame := { fDst : N; fSrc : N; fVlans : list N; fMpls : list (N * N); fOu
                   fTun : tunnel; fInner : l3; fL4 : l4; fTail : bytes }.
 
 Definition l4_proto (x : l4) : N :=
-  match x with L4TCP _ _ _ => 6 | L4UDP _ _ => 17 | L4ICMP _ _ => 1 | L4ICMP6 _ _ => 58 | L4Other p _ => p end.
+  match x with L4TCP _ _ _ _ => 6 | L4UDP _ _ => 17 | L4ICMP _ _ => 1 | L4ICMP6 _ _ => 58 | L4Other p _ => p end.
 Definition enc_l4 (x : l4) : bytes :=
   match x with
-  | L4TCP sp dp fl => enc_be 2 sp ++ enc_be 2 dp ++ enc_be 4 7 ++ enc_be 4 9 ++ [80; fl] ++ enc_be 2 1024 ++ enc_be 2 0 ++ enc_be 2 0
+  | L4TCP sp dp fl ow =>
+      (* data offset 5 + ow words; the options are ow words of no-operation octets *)
+      enc_be 2 sp ++ enc_be 2 dp ++ enc_be 4 7 ++ enc_be 4 9 ++ [16 * (5 + ow); fl] ++ enc_be 2 1024 ++ enc_be 2 0 ++ enc_be 2 0
+        ++ repeat 1 (N.to_nat (4 * ow))
   | L4UDP sp dp => enc_be 2 sp ++ enc_be 2 dp ++ enc_be 2 8 ++ enc_be 2 0
   | L4ICMP t c | L4ICMP6 t c => [t; c] ++ enc_be 2 0 ++ enc_be 4 1
   | L4Other _ p => p
   end.
 Definition l4_layer (x : l4) : list (parser * N) :=
   match x with
-  | L4TCP _ _ _ => [(PTCP, 20)] | L4UDP _ _ => [(PUDP, 8)] | L4ICMP _ _ => [(PICMP, 8)]
+  | L4TCP _ _ _ ow => [(PTCP, 20 + 4 * ow)] | L4UDP _ _ => [(PUDP, 8)] | L4ICMP _ _ => [(PICMP, 8)]
   | L4ICMP6 _ _ => [(PICMPv6, 8)] | L4Other _ _ => []
   end.
 
@@ -116,7 +119,7 @@ Definition set_l3 (m : msg) (x : l3) (next : N) : msg :=
 
 Definition set_l4 (m : msg) (x : l4) : msg :=
   match x with
-  | L4TCP sp dp fl => msetI (msetI (msetI m cSrcPort sp) cDstPort dp) cTcpFlags fl
+  | L4TCP sp dp fl _ => msetI (msetI (msetI m cSrcPort sp) cDstPort dp) cTcpFlags fl
   | L4UDP sp dp => msetI (msetI m cSrcPort sp) cDstPort dp
   | L4ICMP t c | L4ICMP6 t c => msetI (msetI m cIcmpType t) cIcmpCode c
   | L4Other _ _ => m
@@ -165,7 +168,8 @@ Definition gen_l3 : Gen l3 :=
 Definition gen_l4 : Gen l4 :=
   gdo k <- grand 6;
   match k with
-  | 0 | 1 => gdo sp <- gval 16; gdo dp <- gval 16; gdo fl <- gval 8; gret (L4TCP sp dp fl)
+  | 0 | 1 => gdo sp <- gval 16; gdo dp <- gval 16; gdo fl <- gval 8;
+             gdo ho <- gbool; gdo ow <- grange 0 10; gret (L4TCP sp dp fl (if ho then ow else 0))
   | 2 => gdo sp <- gval 16; gdo dp <- gval 16; gret (L4UDP sp dp)
   | 3 => gdo t <- gval 8; gdo c <- gval 8; gret (L4ICMP t c)
   | 4 => gdo t <- gval 8; gdo c <- gval 8; gret (L4ICMP6 t c)
